@@ -5,6 +5,7 @@ package realrepro
 
 import (
 	"io"
+	"math"
 	"testing"
 
 	"github.com/vbauerster/mpb/v8"
@@ -41,4 +42,17 @@ func TestC11AbortThenReachTotal(t *testing.T) {
 	if !a2 || c2 {
 		t.Errorf("after Wait: Completed=%v Aborted=%v, want false/true (Aborted was true before)", c2, a2)
 	}
+}
+
+// C09, reported by two bug-hunting sub-agents and reproduced by the C09 search once the alphabet had IncrInt64 of
+// MaxInt64/MinInt64 and the reference a saturating sum: an increment that does not fit into int64 wrapped around.
+func TestC09IncrementDoesNotWrapAround(t *testing.T) {
+	p := mpb.New(mpb.WithOutput(io.Discard))
+	b := p.AddBar(100)
+	b.IncrBy(50)
+	b.IncrInt64(math.MaxInt64)
+	if cur, done := b.Current(), b.Completed(); cur != 100 || !done {
+		t.Fatalf("total 100, at 50, IncrInt64(MaxInt64): Current()=%d Completed()=%v, want 100 true", cur, done)
+	}
+	p.Wait()
 }
